@@ -146,11 +146,11 @@ func (res *Result) AddViolation(v Violation) {
 	defer res.mu.Unlock()
 	res.NViolations++
 	// keep a diverse sample: at most 8 per verb (first token of the case), 60 in total
-	verb := strings.SplitN(v.Case, " ", 2)[0]
+	verb := strings.SplitN(v.Case, " ", 2)[0] + "|" + v.Known // instances of a known finding never crowd out new violations
 	if res.perVerb == nil {
 		res.perVerb = map[string]int{}
 	}
-	if res.perVerb[verb] >= 8 || len(res.Violations) >= 60 {
+	if res.perVerb[verb] >= 8 || len(res.Violations) >= 80 {
 		return
 	}
 	res.perVerb[verb]++
@@ -370,7 +370,14 @@ func Execute(p Prop, driverPath string, seed uint64, tier string, replay []strin
 			}
 		}
 		if orc != "" {
-			res.AddViolation(Violation{Case: l, Go: goOuts[i], Expected: modelOuts[i], What: orc, Source: "oracle"})
+			v := Violation{Case: l, Go: goOuts[i], Expected: modelOuts[i], What: orc, Source: "oracle"}
+			// an oracle may classify a violation as an instance of a recorded finding: "KNOWN:<id>:<what>"
+			if strings.HasPrefix(orc, "KNOWN:") {
+				if p := strings.SplitN(orc, ":", 3); len(p) == 3 {
+					v.Known, v.What = p[1], p[2]
+				}
+			}
+			res.AddViolation(v)
 		}
 	}
 	res.DistinctNT = len(seen)
